@@ -65,10 +65,16 @@
 //	            (int, int64: DecFloat.neg64 = wrap-around; float64: DecFloat.b64_neg = sign bit, exact for non-NaN),
 //	            l[i] on a slice with an unsigned index (None = PPanic), uint64(len(l)) = the length (a Go length is a
 //	            non-negative int), MessageID(uint64) = mod 2^32.
+//	            For Parser.string: a labelled `for {}` with `break Label` / `continue` (leave / repeat the innermost loop;
+//	            a plain break inside a switch is rejected), `switch v := p.m(); v { case <integer constants>: }` (if chain
+//	            in source order, default last), `fallthrough` as the last statement of a clause (continues with the next
+//	            clause's body), a switch that ends its block hands the continuation to its arms (no join), `_ = p.m()`,
+//	            `var b strings.Builder` = the bytes written, `if _, err := b.WriteRune(r) | b.WriteString(s); err != nil
+//	            {..failf}` = b ++ utf8_encode r | b ++ s (the error of a strings.Builder write is always nil), b.String().
 //	Parse       see translateParse: exact shape required; emitted as Parser_Parse_dispatch / Parser_Parse_loop.
 //	primitives  a call p.m(...) inside any translated method is printed as the hand model's operation (table
 //	            `prims`); for the translated helpers ParserEquiv.v proves Parser_m = that operation. NOT translated
-//	            (hand model only): nextToken peekToken nextRune peekRune useWhitespace string int anyOf failf.
+//	            (hand model only): nextToken peekToken nextRune peekRune useWhitespace int anyOf failf.
 package main
 
 import (
@@ -122,7 +128,7 @@ var enumCtors = map[string][]string{
 }
 
 // Parser methods translated (compositions of other helpers); NOT translated = hand model only: nextToken peekToken
-// nextRune peekRune useWhitespace (scanner access), string (labelled loop over runes, strings.Builder), int (F12
+// nextRune peekRune useWhitespace (scanner access), int (F12
 // conversion arithmetic), anyOf (variadic range), failf
 var helperMethods = []string{"keyword", "peekKeyword", "token", "optionalToken", "identifier", "stringIdentifier", "uint",
 	"optionalUint", "float", "intInRange", "enumValue", "optionalObjectType", "messageID", "signalValueType",
